@@ -136,6 +136,14 @@ pub fn pack_c11<P: SimPrefix, T: SimVal>(
                     let c = v.clone();
                     (c.prefix().raw(), c.value().map(|x| x.snap()), view_ents(&c, cap))
                 })?;
+                // IntoIterator for TrieView, prefix_value()
+                let (ii, pv) = ctx.obs("C11", "TrieView::into_iter", || {
+                    let c = v.clone();
+                    let pv = c.prefix_value().map(|(p, x)| (p.raw().key(), x.snap()));
+                    (c.into_iter().take(cap).map(|(p, t)| Ent { key: p.raw().key(), raw: p.raw(), v: t.snap() }).collect::<Vec<_>>(), pv)
+                })?;
+                chk!(ctx, "C11", ii == ents, "view.into_iter", "view_at({q}).into_iter() yields {:?}, iter() yields {:?}", ii, ents);
+                chk!(ctx, "C11", pv == here.map(|x| (q, x)), "view.prefix_value", "view_at({q}).prefix_value() = {:?}, entry stored exactly there: {:?}", pv, here);
                 chk!(ctx, "C11", cp == vp && cv == val && ce == ents, "view.clone", "clone of view_at({q}): prefix {cp} value {:?} entries {:?}; original: prefix {vp} value {:?} entries {:?}", cv, ce, val, ents);
                 if ctx.is("C11") && (mix64(salt ^ q.bits as u64) % 3 == 0) {
                     let jj = (mix64(salt ^ q.len as u64) % (expo.len() as u64 + 1)) as usize;
